@@ -604,7 +604,7 @@ func (s String) Subscript(key Value) (Char, Value) {
 	i, ok := ToGoInt(key)
 	if !ok {
 		if i == -1 {
-			return 0, Ref(NewIndexOutOfRangeError(key.Inspect(), len(s)))
+			return 0, Ref(NewIndexOutOfRangeError(key.Inspect(), s.CharCount()))
 		}
 		return 0, Ref(NewCoerceError(IntClass, key.Class()))
 	}
@@ -675,7 +675,7 @@ func (s String) GraphemeAt(key Value) (String, Value) {
 	i, ok := ToGoInt(key)
 	if !ok {
 		if i == -1 {
-			return "", Ref(NewIndexOutOfRangeError(key.Inspect(), len(s)))
+			return "", Ref(NewIndexOutOfRangeError(key.Inspect(), s.GraphemeCount()))
 		}
 		return "", Ref(NewCoerceError(IntClass, key.Class()))
 	}
